@@ -110,6 +110,11 @@ func sessRunCase(evs []sessEvent) ([]sessOut, error) {
 		if len(o.Res) >= 5 && o.Res[:5] == "panic" {
 			break
 		}
+		if o.Res == "timeout" {
+			// the statement never returned: its goroutine still holds whatever it holds; nothing more can be
+			// asked of this session (and closing or abandoning it could block for ever too)
+			return outs, nil
+		}
 	}
 	if sess.RelationService != nil {
 		sess.RelationService.VerifAbandon()
